@@ -31,7 +31,11 @@ C09Law(r) == r.ok => (r.b = r.w /\ r.fix)
 (* C01: all observations of one input - in whichever process, call, list position - carry the same result *)
 C01Law(r) == Cardinality({ r.obs[i][4] : i \in 1..Len(r.obs) }) = 1
 
-Holds(r) == CASE Law = "C01" -> C01Law(r) [] Law = "C09" -> C09Law(r) [] Law = "C02" -> C02Law(r) [] Law = "C06" -> C06Law(r) [] Law = "C07" -> C07Law(r) [] Law = "C08" -> C08Law(r) [] Law = "C14" -> C14Law(r)
+(* C15: with romanisers the same rules fire on the same words (a = b: the sequence of words entering and leaving every rule);  *)
+(*      a deromanised spelling gives exactly the result of the IPA it stands for (same)                                          *)
+C15Law(r) == r.same /\ r.a = r.b
+
+Holds(r) == CASE Law = "C15" -> C15Law(r) [] Law = "C01" -> C01Law(r) [] Law = "C09" -> C09Law(r) [] Law = "C02" -> C02Law(r) [] Law = "C06" -> C06Law(r) [] Law = "C07" -> C07Law(r) [] Law = "C08" -> C08Law(r) [] Law = "C14" -> C14Law(r)
 
 VARIABLES k, verdict
 Init == k \in 1..Len(Rec) /\ verdict = "?"
